@@ -1074,6 +1074,17 @@ package formula
 //@   ensures wfv(result0) && rpost(r)
 //@   ensures r.world == step(old(r.world), expr.Expression)
 
+// Calls (C11). TODO(verify): the reflective call is not yet verified; until it is, this contract is
+// trusted (listed as an assumption in the evidence).
+//@ func (*Runner).resolveCallExpression
+//@   trusted
+//@   tags [C03,C11]
+//@   requires rpre(r) && expr != nil && treeok(box(expr, *CallExpression))
+//@   assigns evalFrame(r)
+//@   panics never
+//@   decreases expr, 2
+//@   ensures wfv(result0) && rpost(r)
+
 // Assignment (C07): only to a bare $-name; evaluates the right side once, binds it, yields it.
 //@ func (*Runner).resolveEqualBinaryExpression
 //@   tags [C07,C03,C20]
